@@ -275,7 +275,12 @@ theorem checkEdges_ok {P : Prog} {live : Blk → List Leaf} {b : Blk} {s : Scope
     rw [forM_ok] at this
     exact checkLiveUsed_ok (this x hx) hl
   · intro x hx hl hlive hu
-    exact checkLeak_ok (h2 x (by simpa using hx)) hl hlive hu
+    refine checkLeak_ok (h2 x ?_) hl hlive hu
+    by_cases hv : x ∈ s.vars
+    · exact List.mem_append_left _ hv
+    · rcases hx with hx | hx
+      · exact absurd hx hv
+      · exact List.mem_append_right _ (List.mem_filter.mpr ⟨hx, by simpa using hv⟩)
 
 /-! ### the implicit use of the borrowed leaves at the exit -/
 
